@@ -6,6 +6,7 @@ import (
 	"fmt"
 
 	"github.com/tellor-io/layer/x/oracle/types"
+	regTypes "github.com/tellor-io/layer/x/registry/types"
 
 	errorsmod "cosmossdk.io/errors"
 
@@ -21,10 +22,29 @@ func (k msgServer) UpdateCyclelist(ctx context.Context, req *types.MsgUpdateCycl
 		return nil, errorsmod.Wrapf(types.ErrInvalidSigner, "invalid authority; expected %s, got %s", k.keeper.GetAuthority(), req.Authority)
 	}
 
+	// the end blocker indexes the list and initializes its queries every block: an empty list, an
+	// entry that cannot be decoded or whose query type has no data spec would stop block processing
+	if len(req.Cyclelist) == 0 {
+		return nil, errorsmod.Wrap(types.ErrInvalidQueryData, "cyclelist cannot be empty")
+	}
+	for _, querydata := range req.Cyclelist {
+		queryType, _, err := regTypes.DecodeQueryType(querydata)
+		if err != nil {
+			return nil, errorsmod.Wrap(types.ErrInvalidQueryData, err.Error())
+		}
+		if _, err := k.keeper.GetDataSpec(ctx, queryType); err != nil {
+			return nil, errorsmod.Wrap(types.ErrInvalidQueryData, err.Error())
+		}
+	}
+
 	if err := k.keeper.Cyclelist.Clear(ctx, nil); err != nil {
 		return nil, err
 	}
 	if err := k.keeper.InitCycleListQuery(ctx, req.Cyclelist); err != nil {
+		return nil, err
+	}
+	// the sequencer may point past the end of a shorter list
+	if err := k.keeper.CyclelistSequencer.Set(ctx, 0); err != nil {
 		return nil, err
 	}
 	queries := make([]string, len(req.Cyclelist))
